@@ -390,7 +390,9 @@ class TemplateString(Expression):
         )
 
     def __hash__(self) -> int:
-        return hash(tuple(self.template))
+        # Interpolated expressions hash by identity, so hash the source form instead.
+        # Two parses of the same template string must hash equal (see `CycleNode`).
+        return hash(str(self))
 
     def __sizeof__(self) -> int:
         return sum(sys.getsizeof(expr) for expr in self.template)
